@@ -71,4 +71,11 @@ func init() {
 		}
 		return clusterCheck(prop, tier, p, []string{"leader_present", "restarted_node_up"}, append([]string{"HANDLER suites hv*: one real node booted from preloaded storage, two puppet peers, every event sequence up to 4 (quick) / 5 (thorough) steps over RequestVote/AppendEntries/InstallSnapshot injections (terms T-1..T+1, both candidates, older/equal/newer logs, prevote or real, clock elapsed or not), own timeouts, every answer to its own requests, crash at quiescent points and armed at storage-call boundaries, restart"}, untimedAssumptions...))
 	}
+	checks["C09"] = func(prop, tier string) int {
+		p := []plan{{"mem1-d3", 15}, {"mem2-d2", 30}, {"mem3-d2", 50}, {"memlead3-d2", 60}}
+		if tier == "thorough" {
+			p = []plan{{"mem1-d4", 100}, {"mem2-d3", 300}, {"mem3-d3", 500}, {"memlead3-d3", 700}}
+		}
+		return clusterCheckAlso(prop, tier, p, []string{"leader_present", "op_acked", "config_changed"}, untimedAssumptions, []string{"C01", "C02", "C07"})
+	}
 }
